@@ -59,7 +59,7 @@ const DEADLINES_WIDE: [u64; 12] = [0, 1, 2, 3, 5, 8, 13, 100, 1 << 63, u64::MAX 
 const ADVANCES_SMALL: [u64; 2] = [1, 2];
 const ADVANCES_WIDE: [u64; 16] = [1, 1, 1, 1, 2, 2, 2, 3, 3, 5, 10, 90, 1 << 62, 1, 2, u64::MAX];
 
-fn delays() -> [Duration; 10] {
+fn delays() -> [Duration; 14] {
     [
         Duration::from_millis(0),
         Duration::from_millis(1),
@@ -71,6 +71,11 @@ fn delays() -> [Duration; 10] {
         Duration::from_millis(u64::MAX - 1),
         Duration::from_millis(u64::MAX),
         Duration::MAX,
+        // more than u64::MAX milliseconds, not a multiple that truncates to u64::MAX
+        Duration::from_secs(1 << 61),
+        Duration::from_secs(u64::MAX / 1000 + 5),
+        Duration::from_millis(u64::MAX).saturating_add(Duration::from_millis(301)),
+        Duration::from_secs(u64::MAX),
     ]
 }
 
@@ -117,7 +122,7 @@ impl World for TimerWorld {
         let small = cfg.x == 0;
         vec![
             spec("deadline", 22, cfg.k, if small { 3 } else { 12 }),
-            spec("delay", if small { 0 } else { 8 }, cfg.k, 10),
+            spec("delay", if small { 0 } else { 8 }, cfg.k, 14),
             spec("poll", 36, cfg.k, 2),
             spec("drop", 10, cfg.k, 0),
             spec("advance", 12, if small { 2 } else { 16 }, 0),
